@@ -25,6 +25,18 @@ LAYOUTS_QUICK = ['lf', 'crlf', 'nofinal', 'unicode', 'exotic']
 LAYOUTS_THOROUGH = LAYOUTS_QUICK + ['cr', 'crlf_nofinal']
 
 
+# hand-shaped programs for request shapes the PF programs do not contain: the inlined
+# definition is the LAST line of the file (with the `nofinal` layouts: the line without a
+# newline disappears), and the definition and its uses are in different files
+TINY = {
+    'lastdef': {'main.py': 'def use_it():\n    return zlast_val + 1\n\n\nzlast_val = 3\n'},
+    'xfile': {'main.py': 'import conf_mod\nprint(conf_mod.setting_val)\nother_val = conf_mod.setting_val + 1\n',
+              'conf_mod.py': 'setting_val = 42\nunrelated_val = 1\n'},
+    'xfile-from': {'main.py': 'from conf_mod import unrelated_val\nimport conf_mod\nprint(conf_mod.setting_val, unrelated_val)\n',
+                   'conf_mod.py': 'unrelated_val = 1\nsetting_val = (4, 2)'},
+}
+
+
 def _init():
     boot.boot()
     boot.environment()
@@ -180,9 +192,16 @@ def requests_for(files):
                 reqs.append({'m': 'rename', 'file': rel, 'line': l, 'col': c, 'name': s,
                              'touched': None})
     text = files['main.py']
-    for v in c06.single_assignments(text):
-        reqs.append({'m': 'inline', 'file': 'main.py', 'line': v['pos'][0], 'col': v['pos'][1],
-                     'name': v['name'], 'touched': None})
+    for rel, ftext in sorted(files.items(), key=lambda kv: (kv[0] != 'main.py', kv[0])):
+        if not rel.endswith('.py'):
+            continue
+        try:
+            cands = c06.single_assignments(ftext)
+        except SyntaxError:
+            continue
+        for v in cands:
+            reqs.append({'m': 'inline', 'file': rel, 'line': v['pos'][0], 'col': v['pos'][1],
+                         'name': v['name'], 'touched': None})
     for sel in c06.expression_selections(text):
         for m in ('extract_variable', 'extract_function'):
             reqs.append({'m': m, 'file': 'main.py', 'line': sel['start'][0], 'col': sel['start'][1],
@@ -194,9 +213,13 @@ def requests_for(files):
 def check_program(src, chain, lay, gnu_patch=False):
     jedi = boot.boot()
     env = boot.environment()
-    prog = pf.build(src, chain)
-    pid = '%s/%s' % (prog.pid(), lay)
-    lf_files = prog.render()
+    if src.startswith('tiny:'):
+        pid = '%s/%s' % (src, lay)
+        lf_files = dict(TINY[src[5:]])
+    else:
+        prog = pf.build(src, chain)
+        pid = '%s/%s' % (prog.pid(), lay)
+        lf_files = prog.render()
     files = layout(lf_files, lay)
     if lay in ('unicode', 'exotic'):
         lf_files = files
@@ -329,8 +352,14 @@ def check_program(src, chain, lay, gnu_patch=False):
                     if bad:
                         fail('line-outside-rewritten-node-changed@%s' % rq['m'], inp,
                              {'file': k2, 'old_line_no': bad[0], 'old_line': bad[1], 'new': code})
-                # a missing final newline stays missing, an existing one stays
-                if (split_keep(old)[-1] == '') != (split_keep(code)[-1] == ''):
+                # a missing final newline stays missing, an existing one stays - unless the last
+                # line is the definition that inline removes: then the end of the file is the
+                # rewritten node itself, not "text outside the rewritten nodes"
+                old_ls = [l for l in split_keep(old) if l != '']
+                last_rewritten = rq['m'] == 'inline' and rq['file'] == k2 \
+                    and rq['line'] == len(old_ls)      # the removed definition is the last line
+                if not last_rewritten and \
+                        (split_keep(old)[-1] == '') != (split_keep(code)[-1] == ''):
                     fail('final-newline-state-changed@%s' % rq['m'], inp,
                          {'file': k2, 'old_tail': old[-20:], 'new_tail': code[-20:]})
             # --- apply
@@ -389,7 +418,8 @@ def _levels(tier):
         # rejections are an open known finding with an explicit input list, kept to that set)
         lv.append(('layout %s' % lay, [dict(src=s, chain=c, lay=lay,
                                             gnu=(lay in ('lf', 'crlf') and (s, c) in qprogs))
-                                       for s, c in progs]))
+                                       for s, c in progs]
+                   + [dict(src='tiny:' + t, chain=[], lay=lay) for t in sorted(TINY)]))
     return lv
 
 
@@ -428,7 +458,8 @@ def run(ctx):
                      % (name, len(pres.skipped), len(tasks)))
         else:
             done.append('%s: %d programs' % (name, len(tasks)))
-        samples.append({'level': name, 'program': pf.build(tasks[0]['src'], tasks[0]['chain']).pid()})
+        samples.append({'level': name, 'program': pf.build(tasks[0]['src'], tasks[0]['chain']).pid()
+                        if not tasks[0]['src'].startswith('tiny:') else tasks[0]['src']})
     ctx.coverage.update({
         'states': states, 'transitions': trans + applied, 'evaluations': trans,
         'refused_with_RefactoringError': refused, 'diffs_parsed_and_applied': diffs,
